@@ -25,7 +25,9 @@ def guarded_run(fn, *args, backend, backend_options=None, seconds=60):
         return isinstance(x, _Alarm) or (isinstance(x, BaseExceptionGroup) and any(has_alarm(y, depth + 1) for y in x.exceptions)) \
             or has_alarm(x.__cause__, depth + 1) or has_alarm(x.__context__, depth + 1)
     old = signal.signal(signal.SIGALRM, on_alarm)
-    signal.setitimer(signal.ITIMER_REAL, seconds)
+    # repeating: an alarm that lands inside a handler which swallows every BaseException (a harness task recording
+    # how its context ended, say) is followed by another one a second later, until one gets through
+    signal.setitimer(signal.ITIMER_REAL, seconds, 1.0)
     try:
         return anyio.run(fn, *args, backend=backend, backend_options=backend_options or {})
     except BaseException as e:  # noqa
